@@ -19,7 +19,8 @@ Cases == JsonDeserialize(IOEnv.CASES_FILE)
 VARIABLES cid, l, st
 vars == <<cid, l, st>>
 
-Seps == {"space", "tab", "newline", "crlf", "two-spaces", "backslash-newline", "block-comment", "block-comment-stars", "line-comment", "comment-and-newline", "empty"}
+Seps == {"space", "tab", "newline", "crlf", "two-spaces", "backslash-newline", "block-comment", "block-comment-stars", "line-comment", "comment-and-newline", "empty",
+         "attribute-like-comment", "attribute-like-block-comment"}   \* `//?: key: value` is a file attribute only at the top of the file
 \* tokens that can never merge with a neighbour when written without a separator
 Punct == {"OPEN_PAREN", "CLOSE_PAREN", "OPEN_BRACE", "CLOSE_BRACE", "COMMA", "COLON", "SEMI", "OPEN_BRACKET", "CLOSE_BRACKET"}
 \* conservative: an empty separator only next to such a token, and never where the pair could start a comment or a longer operator
